@@ -14,8 +14,10 @@ import (
 	"google.golang.org/protobuf/proto"
 	"pgregory.net/rapid"
 
+	"verif/harness/internal/casfmt"
 	"verif/harness/internal/cl"
 	"verif/harness/internal/ev"
+	"verif/harness/internal/fproxy"
 	"verif/harness/internal/gen"
 	"verif/harness/internal/rt"
 	"verif/harness/internal/stack"
@@ -127,7 +129,24 @@ func TestC02Read(t *testing.T) {
 		if err := s1.Cache.Put(context.Background(), cache.CAS, b.Hash, b.Size, bytes.NewReader(b.Data)); err != nil {
 			t.Fatalf("Put of a pristine blob failed: %v", err)
 		}
-		s, err := stack.New(stack.Opts{Storage: r.Storage, Zstd: r.Codec, Dir: s1.Dir})
+		// One case in four: the reader starts on an EMPTY directory in front of a
+		// backend that holds the blob (in the reader's storage format, as its own
+		// write-through would have left it): the first read of the case is then
+		// served while the blob is being fetched, the later ones from the local copy.
+		viaBackend := rapid.IntRange(0, 3).Draw(t, "viaBackend") == 0
+		ro := stack.Opts{Storage: r.Storage, Zstd: r.Codec, Dir: s1.Dir}
+		if viaBackend {
+			px := fproxy.New()
+			st := b.Data
+			if r.Storage == "zstd" {
+				st = casfmt.Encode(b.Data, gen.Chunk, func(x []byte) []byte { return gen.ZstdGo(x, 1, false) })
+			}
+			px.Set(cache.CAS, b.Hash, fproxy.Obj{Stored: st, Logical: b.Size})
+			px.ContainsSizeUnknown = rapid.Bool().Draw(t, "backendSizeUnknown")
+			ro = stack.Opts{Storage: r.Storage, Zstd: r.Codec, Proxy: px}
+			E.Label("source=backend-only")
+		}
+		s, err := stack.New(ro)
 		if err != nil {
 			t.Fatalf("disk.New(reader) on a directory written by %v: %v", w, err)
 		}
@@ -141,6 +160,10 @@ func TestC02Read(t *testing.T) {
 			path := rapid.SampledFrom(paths).Draw(t, "path")
 			if n > 64*gen.KiB && i == 0 {
 				path = "bs" // every large blob gets at least one ranged, limited identity read
+			}
+			if viaBackend && i == 0 {
+				// the read that triggers the fetch: prefer the ranged paths
+				path = rapid.SampledFrom([]string{"bs", "bs-zstd", "bs-zstd", "diskz", "disk", "http", "http-zstd", "batch", "batch-zstd"}).Draw(t, "fetchPath")
 			}
 			var off, limit int64
 			hasOff := path == "bs" || path == "bs-zstd" || path == "disk" || path == "disk-unknown" || path == "diskz" || path == "diskz-unknown"
